@@ -15,12 +15,13 @@ type P struct {
 
 func Pred(name string, inv bool) *P { return &P{Kind: "pred", Name: name, Inv: inv} }
 func TypeStep() *P                  { return &P{Kind: "type"} }
+func Ext(name string, inv bool) *P  { return &P{Kind: "ext", Name: name, Inv: inv} }
 func Seq(ps ...*P) *P               { return &P{Kind: "seq", Sub: ps} }
 func Alt(ps ...*P) *P               { return &P{Kind: "alt", Sub: ps} }
 
 // Leaves counts predicate/@type leaves; Ops counts operators (/, |, ^).
 func (p *P) Leaves() int {
-	if p.Kind == "pred" || p.Kind == "type" {
+	if p.Kind == "pred" || p.Kind == "type" || p.Kind == "ext" {
 		return 1
 	}
 	n := 0
@@ -32,7 +33,7 @@ func (p *P) Leaves() int {
 
 func (p *P) Ops() int {
 	switch p.Kind {
-	case "pred":
+	case "pred", "ext":
 		if p.Inv {
 			return 1
 		}
@@ -85,6 +86,14 @@ func (p *P) Print(style PrintStyle) string {
 			}
 		case "type":
 			s = "@type"
+		case "ext":
+			s = "apiExt." + x.Name
+			if x.Inv {
+				if style(3) == 1 {
+					s += " "
+				}
+				s += "^"
+			}
 		case "alt":
 			parts := make([]string, len(x.Sub))
 			for i, c := range x.Sub {
@@ -203,6 +212,34 @@ func (p *P) eval(g *Graph, from []int) map[string]*Reached {
 				add(PVal{Lit: &l, Final: "type"})
 			}
 		}
+	case "ext":
+		// custom domain property: node --customDomainProperties--> L, node --<id of L>--> extension node named Name
+		if !p.Inv {
+			for _, n := range from {
+				for _, l := range g.Nodes[n].Children(DOC + "customDomainProperties") {
+					vals := g.Nodes[n].Props[g.Nodes[l].ID]
+					if len(vals) != 1 || !vals[0].IsNode() {
+						continue
+					}
+					if ExtensionName(g.Nodes[vals[0].Node]) == p.Name {
+						add(PVal{Node: vals[0].Node, Final: "ext"})
+					}
+				}
+			}
+		} else {
+			for _, o := range from {
+				if ExtensionName(g.Nodes[o]) != p.Name {
+					continue
+				}
+				for mi, mnode := range g.Nodes {
+					for _, vals := range mnode.Props {
+						if len(vals) == 1 && vals[0].IsNode() && vals[0].Node == o {
+							add(PVal{Node: mi, Final: "inv"})
+						}
+					}
+				}
+			}
+		}
 	case "alt":
 		for _, c := range p.Sub {
 			for k, r := range c.eval(g, from) {
@@ -232,6 +269,27 @@ func (p *P) eval(g *Graph, from []int) map[string]*Reached {
 		}
 	}
 	return out
+}
+
+const CoreNS = "http://a.ml/vocabularies/core#"
+
+// ExtensionName returns the single core:extensionName of a node ("" when absent or not a single string).
+func ExtensionName(n *Node) string {
+	ls := n.Lits(CoreNS + "extensionName")
+	if len(ls) == 1 && len(n.Props[CoreNS+"extensionName"]) == 1 && ls[0].K == "s" {
+		return ls[0].S
+	}
+	return ""
+}
+
+// AttachExtension links node n to extension node x through a fresh custom-domain-property node (AMF's shape).
+func (g *Graph) AttachExtension(n, x int, name string) {
+	l := g.Add(DOC + "DomainProperty")
+	g.Nodes[n].AddVal(DOC+"customDomainProperties", NV(l))
+	g.Nodes[n].AddVal(g.Nodes[l].ID, NV(x))
+	if ExtensionName(g.Nodes[x]) == "" {
+		g.Nodes[x].AddVal(CoreNS+"extensionName", LV(S(name)))
+	}
 }
 
 // Denote computes the set of values reached from node start.
